@@ -148,7 +148,7 @@ fn seq_text(operands: &[&str], ops: &[&str], style: u8) -> String {
 }
 
 /// the Debug dump with every `(line, col)` pair erased
-fn erase_positions(d: &str) -> String {
+pub fn erase_positions(d: &str) -> String {
     let b: Vec<char> = d.chars().collect();
     let mut out = String::new();
     let mut i = 0;
@@ -201,7 +201,7 @@ impl Check for C08 {
         let max_seq = ctx.tier.pick(3usize, 4usize);
         let max_tree = ctx.tier.pick(4usize, 5usize);
         ctx.rule = format!(
-            "(1) all operator sequences e0 o1 e1 .. on en, n <= {}, over the 15 binary operators and `..`; every assignment of {} operand forms (name, literal, negative literal, call, index, range index, property, type property, postfix forms on a negative literal, chained calls, string, list literal) for n <= 2 in three spacing styles, one varied operand for larger n; the real parser's tree (hook ast) must equal the reference parser's tree, and a text one parser rejects the other must reject; (2) all expression trees with <= {} operator nodes over one operator per tier (all 16 at the two topmost levels), printed with only the necessary parentheses: the real parser must return the tree itself; (3) every subset (<= 64 per tree) of redundant parenthesis placements leaves the tree unchanged, as do 1..64 and selected numbers up to 5000 of nested redundant pairs; (4) all operator pairs evaluated, bare and with either grouping parenthesised, on 13 operand triples for which the groupings print different values and on 10 triples at the edges of the 64-bit range where the grouping decides whether an intermediate result overflows; non-trivial = all",
+            "(1) all operator sequences e0 o1 e1 .. on en, n <= {}, over the 15 binary operators and `..`; every assignment of {} operand forms (name, literal, negative literal, call, index, range index, property, type property, postfix forms on a negative literal, chained calls, string, list literal) for n <= 2 in three spacing styles, one varied operand for larger n; the real parser's tree (hook ast) must equal the reference parser's tree, and a text one parser rejects the other must reject; the same for 11 statements followed by a line that begins with a negative literal, an operator or a postfix form; (2) all expression trees with <= {} operator nodes over one operator per tier (all 16 at the two topmost levels), printed with only the necessary parentheses: the real parser must return the tree itself; (3) every subset (<= 64 per tree) of redundant parenthesis placements leaves the tree unchanged, as do 1..64 and selected numbers up to 5000 of nested redundant pairs; (4) all operator pairs evaluated, bare and with either grouping parenthesised, on 13 operand triples for which the groupings print different values and on 10 triples at the edges of the 64-bit range where the grouping decides whether an intermediate result overflows, and inside nested interpolation slots; non-trivial = all",
             max_seq,
             OPERANDS.len(),
             max_tree
@@ -357,6 +357,17 @@ impl Check for C08 {
             }
         }
         flush(ctx, &mut cases, self)?;
+        // (1b) a statement that begins with a negative literal (or with an operator-led line) after a
+        // complete statement: the line break ends the first statement, the `-` negates the literal
+        for first in ["y := a", "y := 7", "y := a + b", "y := f(a)", "y := xs[0]", "y := (a)", "print(a)", "y := \"s\"", "y := -1", "y := a .. b", "y := o.k"] {
+            for second in ["-2", "-2 + a", "- 2", "-2 .. 5", "-a", "(-2)", "+ 2", "* 2", ".. 2", "[0]", "(a)", ".k", "->type()", "== 2", "&& true"] {
+                let mut c = Case::new(format!("{}\n{}\nz := 1\n", first, second), T_SEQ, format!("statement {:?} followed by the line {:?}", first, second));
+                c.mode = Mode::Ast;
+                c.no_ref = true;
+                cases.push(c);
+            }
+        }
+        flush(ctx, &mut cases, self)?;
         // (3b) any number of redundant parentheses: n pairs around a name, around a whole operation
         // and around its right operand leave the tree unchanged (n up to 64, then selected sizes)
         let mut depths: Vec<usize> = (1..=64).collect();
@@ -414,6 +425,22 @@ impl Check for C08 {
                     cases.push(Case::new(format!("{}print(a {} b {} c)\n", pre, o1, o2), T_EVAL, format!("eval {} {} at the edge {} | {} | {}", o1, o2, a, b, c3)));
                     cases.push(Case::new(format!("{}print((a {} b) {} c)\n", pre, o1, o2), T_EVAL, format!("eval left-parenthesised {} {} at the edge {} | {} | {}", o1, o2, a, b, c3)));
                     cases.push(Case::new(format!("{}print(a {} (b {} c))\n", pre, o1, o2), T_EVAL, format!("eval right-parenthesised {} {} at the edge {} | {} | {}", o1, o2, a, b, c3)));
+                }
+            }
+        }
+        // groupings inside interpolation slots, two slots of one literal holding nested literals at
+        // the same slot-relative position but with different groupings
+        for o1 in ["+", "-", "*", "/", "%"] {
+            for o2 in ["+", "-", "*", "/", "%"] {
+                for (a, b, c3) in [("7", "3", "2"), ("2", "2", "3"), ("9", "4", "2"), ("1", "1", "1")] {
+                    cases.push(Case::new(
+                        format!(
+                            "d := \"0123456789\"\na := {}\nb := {}\nc := {}\nprint($\"${{$\"<${{d[(a {} b) {} c]}}>\"}} ${{$\"<${{d[a {} (b {} c)]}}>\"}}\")\nprint($\"${{d[a {} b {} c]}}\")\n",
+                            a, b, c3, o1, o2, o1, o2, o1, o2
+                        ),
+                        T_EVAL,
+                        format!("eval {} {} inside nested slots on {} {} {}", o1, o2, a, b, c3),
+                    ));
                 }
             }
         }
